@@ -12,12 +12,14 @@ Z3_TIMEOUT_MS = int(os.environ.get('PYVC_Z3_TIMEOUT_MS', '10000'))
 CVC5_TIMEOUT_MS = int(os.environ.get('PYVC_CVC5_TIMEOUT_MS', '20000'))
 
 
-def _run_z3(smt2, timeout_ms, want_model):
+def _run_z3(smt2, timeout_ms, want_model, ematch_only=False):
     import z3
     t0 = time.time()
     try:
         s = z3.Solver()
         s.set('timeout', timeout_ms)
+        if ematch_only:
+            s.set('smt.mbqi', False)        # E-matching only: 'unsat' is definitive, anything else is not
         s.from_string(smt2)
         r = s.check()
         model = None
@@ -58,9 +60,15 @@ def _work(item):
         r, t, model = _run_z3(hinted, 4000, True)
         if r == 'sat':
             return idx, r, t, model, 'z3'
+    t_pre = 0.0
+    if must == 'valid' and ('(forall' in smt2 or '(lambda' in smt2):
+        r0, t_pre, _ = _run_z3(smt2, min(Z3_TIMEOUT_MS, 6000), False, ematch_only=True)
+        if r0 == 'unsat':
+            return idx, 'unsat', t_pre, None, 'z3(e-matching)'
     r, t, model = _run_z3(smt2, Z3_TIMEOUT_MS, True)
+    t += t_pre
     backend = 'z3'
-    if (r not in ('sat', 'unsat')) and use_cvc5:
+    if (r not in ('sat', 'unsat')) and use_cvc5 and '(lambda' not in smt2:
         r2, t2 = _run_cvc5(smt2, CVC5_TIMEOUT_MS)
         t += t2
         if r2 in ('sat', 'unsat'):
